@@ -167,6 +167,11 @@ def proj(t, name):
         i = int(name)
         if i < len(t[1]):
             return t[1][i]
+    if isinstance(name, str) and name.startswith('[') and name[1:-1].isdigit():
+        if k == 'array' and int(name[1:-1]) < len(t[1]):
+            return t[1][int(name[1:-1])]
+        if k not in ('obj', 'phi', 'undef', 'top', 'at', 'lv'):
+            return ('field', t, '[]')       # an element of something that is not an array literal: position unknown
     if k == 'obj':
         for f, x in t[2]:
             if f == name:
@@ -357,6 +362,8 @@ class Interp:
                     path = path + (n,)
             elif k == 'downcast':
                 continue
+            elif k == 'cindex' and not e.get('from_end') and isinstance(e.get('offset'), int):
+                path = path + ('[%d]' % e['offset'],)     # `let [p, n] = arr`: a known element of the array
             elif k in ('index', 'cindex'):
                 path = path + ('[]',)
             else:
@@ -469,7 +476,21 @@ class Interp:
         line = t['span']['line']
         result = None
         mutate = True
-        if (name_pair in TRANSPARENT_NAMES or d in TRANSPARENT_DEFS) and len(vals) >= 1:
+        if info['name'] == 'map' and len(vals) == 2 and (info['self_s'] or '').startswith('[') and strip_lv(vals[0])[0] == 'array' \
+                and strip_lv(vals[1])[0] == 'closure':
+            # `[a, b].map(f)` is `[f(a), f(b)]`: the closure applied to every element, in place
+            clo = strip_lv(vals[1])
+            cb = self.facts.by_uid.get(clo[1])
+            if cb is not None and cb.arg_count == 2:
+                cr = interp(self.facts, cb)
+                if not any(w.loc[0][0] in ('P', 'R') for w in cr.all_mutations()):
+                    from .terms import subst as _subst
+                    m0 = {('upvar', k_): v_ for k_, v_ in enumerate(clo[2])}
+                    result = ('array', tuple(_subst(cr.ret, {**m0, ('param', 2): el}) for el in strip_lv(vals[0])[1]))
+                    mutate = False
+        if result is not None:
+            pass
+        elif (name_pair in TRANSPARENT_NAMES or d in TRANSPARENT_DEFS) and len(vals) >= 1:
             result = vals[0]
             mutate = False
         elif d in ('std::mem::take', 'core::mem::take') and args and args[0].loc is not None:
